@@ -211,6 +211,11 @@ def judge_c02(rec):
         term = [e[1] for e in rec['events'] if e[0] == 'listener' and e[1] in TERMINAL]
         if term != [state]:
             bad('terminal-notifications', 'terminal listener notifications %s for final state %s' % (term, state))
+        if rec['case'].get('listener') == 'raising':
+            for ch in ('listener2', 'listener3'):
+                term = [e[1] for e in rec['events'] if e[0] == ch and e[1] in TERMINAL]
+                if term != [state]:
+                    bad('terminal-notifications', 'with raising listeners: %s received terminal notifications %s for final state %s' % (ch, term, state))
     ncleanup = sum(1 for e in rec['events'] if e[0] == 'cleanup')
     if ncleanup != 1:
         bad('cleanup-count', 'registered cleanup ran %d times' % ncleanup)
